@@ -30,8 +30,11 @@ def known_inputs():
     A = ev.Argument('A', (ev.constant(3),)*3, float)
     d = ev.Argument('d', (ev.constant(3),)*2, float)
     e2 = ev.TakeDiag(ev.Multiply(types.frozenmultiset([ev.Inflate(A, ev.constant(numpy.array([0, 0, 2])), ev.constant(3)), ev.Diagonalize(d)])))
-    return {'C01-loop-power-inflate-diagonalize': (e1, {'a': numpy.array([1., 2.])}),
-            'C01-hang-takediag-inflate-diagonalize': (e2, {'A': numpy.ones((3, 3, 3)), 'd': numpy.ones((3, 3))})}
+    b2 = ev.Argument('b2', (ev.constant(2),)*2, int)
+    D = ev.Diagonalize(b2)
+    e3 = ev.Multiply(types.frozenmultiset([ev.Take(D, ev.constant(numpy.array([1, 0]))), D]))
+    return {'C01-cycle-product-of-diagonalize-or-inflate': [(e1, {'a': numpy.array([1., 2.])}), (e2, {'A': numpy.ones((3, 3, 3)), 'd': numpy.ones((3, 3))}),
+                                                            (e3, {'b2': numpy.array([[-2, 3], [2, -3]])})]}
 
 
 def termination_signature(kind, e, args):
@@ -39,6 +42,10 @@ def termination_signature(kind, e, args):
         k, _ = simplify(e2, 4)
         return k == kind
     small, sargs = shrink.shrink(e, args, fails, budget=40)
+    classes = set(shrink.skeleton(small).split('+'))
+    if classes & {'Multiply', 'Power'} and classes & {'Diagonalize', 'Inflate'}:
+        # root-cause family of the open known finding: products of Diagonalize / Inflate operands
+        return 'simplify-cycle:product-of-diagonalize-or-inflate', small, sargs
     return 'simplify-%s:%s' % ('nonterminating' if kind == 'hang' else 'loop', shrink.skeleton(small)), small, sargs
 
 
@@ -59,6 +66,7 @@ def _enum_worker(job):
     import random
     from . import enumexpr
     seed, caps, dtype = job
+    caps, relcap = caps[:-1], caps[-1]
     rng = random.Random(seed)
     E = enumexpr.Enum(rng, dtype=dtype)
     pools = E.levels(len(caps), 0) if False else None
@@ -69,6 +77,7 @@ def _enum_worker(job):
         # different caps per level: build level by level with the largest cap, then trim
         allpools = E.levels(len(caps), max(caps))
         allpools = [allpools[0]] + [p[:cap] for p, cap in zip(allpools[1:], caps)]
+    allpools.append(E.related([e for p_ in allpools[1:3] for e in p_], relcap))
     for level, pool in enumerate(allpools[1:], 1):
         for e in pool:
             kind, s = simplify(e, 8)
@@ -149,9 +158,7 @@ def run(c):
     kin = known_inputs()
     for entry in c.findings:
         if entry.get('status') == 'open' and entry['id'] in kin:
-            e, args = kin[entry['id']]
-            kind, _ = simplify(e, 10)
-            c.report_known_still_failing(entry, kind in ('loop', 'hang'))
+            c.report_known_still_failing(entry, any(simplify(e, 10)[0] in ('loop', 'hang') for e, args in kin[entry['id']]))
 
     cases, reqs = [], []
     outcome = collections.Counter()
@@ -242,9 +249,9 @@ def run(c):
     c.obligation('valid:simplified-equals-original', not any('simplify' in v[2] for v in c.violations), 'validation', '%d symbolic + %d at sample point' % (nsym, nconc))
     # ---- systematic small-tree enumeration (interaction space of the swap rules), parallel real-code differential
     if c.tier == 'quick':
-        enum_stream(c, 12, (400, 1500, 1500))
+        enum_stream(c, 14, (400, 1200, 400, 2600))
     else:
-        enum_stream(c, 56, (400, 6000, 12000))
+        enum_stream(c, 56, (400, 6000, 6000, 30000))
     # ---- (M) the fixed-point driver itself (deep_replace_property) vs its Lean model, + memoisation consequences on real trees
     from . import c01driver
     c01driver.stream(c, 300 if c.tier == 'quick' else 4000)
